@@ -4,22 +4,6 @@ From Crux Require Import Wire.Codec Wire.Cases Wire.Kv.
 Import ListNotations.
 Local Open Scope N_scope.
 
-(* compact byte strings: large values are written as runs *)
-Inductive bspec : Type := Lit (l : list byte) | Rep (b : byte) (n : N) | Cat (x y : bspec).
-Fixpoint rep_pos (b : byte) (p : positive) : list byte :=
-  match p with
-  | xH => [b]
-  | xO p' => let l := rep_pos b p' in l ++ l
-  | xI p' => let l := rep_pos b p' in b :: l ++ l
-  end.
-Fixpoint bytes_of (s : bspec) : list byte :=
-  match s with
-  | Lit l => l
-  | Rep b N0 => []
-  | Rep b (Npos p) => rep_pos b p
-  | Cat x y => bytes_of x ++ bytes_of y
-  end.
-
 (* decidable equality of protocol values *)
 Fixpoint keys_eqb (a b : list bytes) : bool :=
   match a, b with
